@@ -14,11 +14,11 @@ from ..models import tptref as tr
 ID = 'C07'
 RULE = ('irreducible row-stochastic matrices with rows on the simplex lattice: n=3 denominator 4 (2072 chains), n=4 '
         'denominator 2 (Q: every 3rd; T: all + denominator 3 every 5th) x all disjoint non-empty (sources,sinks) x '
-        'containers {ndarray (C, Fortran-ordered, transposed view, strided view), csr,csc,coo,lil} (sparse on every 2nd chain in Q) x lag {1,2.5,1e-9,3e6} (residuals relative to the time unit); single states also as bare python/numpy ints; state=(T,A,B,container); '
+        'containers {ndarray (C, Fortran-ordered, transposed view, strided view), csr,csc,coo,lil} (sparse on every 2nd chain in Q) x lag {1,2.5,1e-9,3e6} (residuals relative to the time unit); single states also as bare python/numpy ints, multi-state sets also as caller-owned descending int64/int32 arrays (same answer, arrays unchanged); state=(T,A,B,container); '
         'non-trivial = non-reversible or periodic chain with >=1 intermediate state')
 ASSUMPTIONS = ['residual tolerance 1e-9 on the first-step equations (direct linear solves of well-conditioned small systems)',
                'scipy sparse matrix containers csr/csc/coo/lil']
-GUARDS = {'scalar_ids': 200, 'nonreversible': 500, 'multi_sink': 500, 'multi_source': 500, 'sparse': 500, 'dense_layouts': 200, 'periodic': 10, 'intermediate': 500}
+GUARDS = {'array_ids': 200, 'scalar_ids': 200, 'nonreversible': 500, 'multi_sink': 500, 'multi_source': 500, 'sparse': 500, 'dense_layouts': 200, 'periodic': 10, 'intermediate': 500}
 NSH = {'quick': 64, 'thorough': 256}
 CONTAINERS = ('ndarray', 'ndarrayF', 'ndarrayT', 'ndarrayS', 'csr', 'csc', 'coo', 'lil')
 
@@ -123,6 +123,28 @@ def check_case(case, ctx, pairs=None):
                         break
                 except Exception as e:
                     ctx.violation('tpt:scalar_id_raises:%s:%s' % (ctag, type(e).__name__), c, 'bare state id raised %r (%r)' % (e, c))
+                    break
+        # the state sets may be given as caller-owned integer arrays in any order: same answer, arrays untouched
+        if len(A) > 1 or len(B) > 1:
+            for dt in ('int64', 'int32'):
+                Aa, Ba = np.array(A[::-1], dtype=dt), np.array(B[::-1], dtype=dt)
+                keepA, keepB = Aa.copy(), Ba.copy()
+                try:
+                    qa = np.asarray(tpt.committors(M, Aa, Ba)).astype(float).ravel()
+                    ma = np.asarray(tpt.mfpts(M, sinks=Ba, lagtime=2.5)).astype(float).ravel()
+                    qL = np.asarray(tpt.committors(M, A, B)).astype(float).ravel()
+                    mL = np.asarray(tpt.mfpts(M, sinks=B, lagtime=2.5)).astype(float).ravel()
+                    ctx.guard('array_ids')
+                    if not (np.array_equal(Aa, keepA) and np.array_equal(Ba, keepB)):
+                        ctx.violation('tpt:mutates_state_ids:%s' % ctag, c, 'caller arrays sources %r -> %r, sinks %r -> %r' % (
+                            keepA.tolist(), Aa.tolist(), keepB.tolist(), Ba.tolist()))
+                        break
+                    if qa.shape != qL.shape or np.abs(qa - qL).max() > 1e-12 or ma.shape != mL.shape or np.abs(ma - mL).max() > 1e-9 * (1 + np.abs(mL).max()):
+                        ctx.violation('tpt:array_ids_differ_from_list:%s' % ctag, c, 'descending %s arrays: committors %r vs %r; mfpts %r vs %r' % (
+                            dt, qa.tolist(), qL.tolist(), ma.tolist(), mL.tolist()))
+                        break
+                except Exception as e:
+                    ctx.violation('tpt:array_ids_raise:%s:%s' % (ctag, type(e).__name__), c, 'integer-array state sets raised %r (%r)' % (e, c))
                     break
         # committors
         try:
